@@ -429,6 +429,14 @@ impl ArchiveIndex {
         reader.read_exact(&mut footer_hash_bytes_check)?;
         let footer_hash_bytes = footer_hash_bytes_check[0];
 
+        // The only footer hash size validate_format accepts. Checked here because this
+        // byte sizes the footer and the stored hash that is_valid compares.
+        if footer_hash_bytes != 8 {
+            return Err(ArchiveError::InvalidFormat(format!(
+                "Footer hash bytes should be 8, got {footer_hash_bytes}"
+            )));
+        }
+
         // Calculate actual footer size
         let footer_size = MIN_FOOTER_SIZE + footer_hash_bytes as usize;
 
@@ -1070,6 +1078,14 @@ impl ChunkedArchiveIndex {
         let mut hash_bytes_buf = [0u8; 1];
         StdRead::read_exact(&mut file, &mut hash_bytes_buf)?;
         let footer_hash_bytes = hash_bytes_buf[0];
+
+        // The only footer hash size validate_format accepts. Checked here because this
+        // byte sizes the footer and the stored hash that is_valid compares.
+        if footer_hash_bytes != 8 {
+            return Err(ArchiveError::InvalidFormat(format!(
+                "Footer hash bytes should be 8, got {footer_hash_bytes}"
+            )));
+        }
         let footer_size = 20 + footer_hash_bytes as i64;
 
         // Read footer manually
